@@ -24,7 +24,7 @@ import (
 )
 
 type cs struct {
-	Kind    string `json:"kind"` // vole | fx | fxk
+	Kind    string `json:"kind"` // vole | fx | fxk | race (the free-running race-detector pass, harness/racepass20)
 	Modulus string `json:"modulus,omitempty"`
 	Lens    []int  `json:"lens,omitempty"` // one Mul call per entry on one instance
 	Offset  int    `json:"offset"`         // rotation of the element class schedule
@@ -282,6 +282,9 @@ func runCase(ctx *runner.Ctx, k cs) {
 }
 
 func work(ctx *runner.Ctx) {
+	if ctx.Shard == 0 {
+		runner.RacePass(ctx, "racepass20", "concurrent VOLE sessions", 2, 20, cs{Kind: "race"})
+	}
 	var cases []cs
 	seed := uint64(ctx.Seed)
 	var lens []int
@@ -383,6 +386,10 @@ func replay(ctx *runner.Ctx, raw json.RawMessage) {
 	var k cs
 	if err := json.Unmarshal(raw, &k); err != nil {
 		panic(err)
+	}
+	if k.Kind == "race" {
+		runner.RacePass(ctx, "racepass20", "concurrent VOLE sessions", 2, 20, k)
+		return
 	}
 	runCase(ctx, k)
 }
